@@ -103,6 +103,9 @@ type CreateCase struct {
 	NoRoom bool       `json:"no_room,omitempty"`
 	Caps   []RootSpec `json:"caps,omitempty"`   // root capacities installed after the previous value was stored
 	Client string     `json:"client,omitempty"` // "" = inline; simgrpc = the file is created through the external client (stream writer, delivery service, stream reader)
+	// Then: a second file created after the first one was closed (whatever its fate), with room on
+	// every root again: it must store exactly its own writes
+	Then []int `json:"then,omitempty"`
 }
 
 var (
